@@ -608,7 +608,7 @@ func TestC26(t *testing.T) {
 			specs = append(specs, spec{b: b, n: 2, fixed: ops})
 		}
 	}
-	nRandom := r.N(20, 300)
+	nRandom := r.N(16, 300)
 	for k := 0; k < nRandom; k++ {
 		for _, b := range []string{"etcd", "redis"} {
 			specs = append(specs, spec{b: b, n: 2 + r.Rng.Intn(2), seed: r.Rng.Int63(), length: 8 + r.Rng.Intn(8)})
